@@ -998,18 +998,22 @@ def check_C18(ctx):
 def check_C15(ctx):
     ctx.rule = ("spec/HpoReject.tla extends the Builder machine with the calls that must be rejected: add_parent with an absent parent or child and annotate_* with an absent term are "
                 "stuttering steps of the builder state; TLC explores every complete lifecycle (every arrangement of every subset of 3 ids as terms, <=2 add_parent calls and <=2 record-level "
-                "calls (thorough: 3 + 2 and 2 + 3) over present AND absent ids, rejected and successful calls interleaved) with invariants TypeOK, NoDangling, InverseRel, Resolvable, ClosureExact, LinkExact and the "
+                "calls (thorough: 3 + 2 and 2 + 3) over present AND absent ids, rejected and successful calls interleaved; plus simulated longer lifecycles over 4 ids with up to 5 + 5 calls) with invariants TypeOK, NoDangling, InverseRel, Resolvable, ClosureExact, LinkExact and the "
                 "action properties RejectedStutters and ReplyRight, and emits each history with the reply of every call and the required projection.  The harness issues the same calls under "
                 "3 id layouts, compares every reply, walks the complete read API (resolving iterators, id lists, to_hpo_set, as_bytes) under catch_unwind, compares the projection, and compares with "
                 "the ontology built from the successful calls alone.  impl->spec: random runs with rejected calls are recorded from the crate and validated against TraceCore (focus C15: rejected "
                 "events must be stuttering steps with a really absent term, the built projection must equal the specification's); non-trivial = the history contains a rejected call")
     if ctx.quick:
-        out = tlc(ctx, "mc/MC_Reject.cfg", "mc/MC_Reject.tla", workers=14, timeout=3000)["out"]
+        out = concat(ctx, [tlc(ctx, "mc/MC_Reject.cfg", "mc/MC_Reject.tla", workers=14, timeout=3000)["out"],
+                           # simulated longer lifecycles (4 ids, up to 5 + 5 calls): 2,000 random histories
+                           tlc(ctx, "mc/MC_RejectSim.cfg", "mc/MC_Reject.tla", workers=4, simulate=500, depth=40, timeout=1800)["out"]], "c15-lines.txt")
     else:
         # (3 add_parent, 2 record-level calls) and (2, 3): 0.7 M + 1.1 M states.  (3, 3) over four record ids is 43 M states / 16 GB of
         # histories - beyond what one check run should write to disk
+        # + simulated LONGER lifecycles: 4 ids, up to 5 add_parent and 5 record-level calls (48,000 random histories; invariants checked on every state)
         out = concat(ctx, [tlc(ctx, "mc/MC_RejectE3.cfg", "mc/MC_Reject.tla", workers=14, timeout=3000)["out"],
-                           tlc(ctx, "mc/MC_RejectF3.cfg", "mc/MC_Reject.tla", workers=14, timeout=3000)["out"]], "c15-lines.txt")
+                           tlc(ctx, "mc/MC_RejectF3.cfg", "mc/MC_Reject.tla", workers=14, timeout=3000)["out"],
+                           tlc(ctx, "mc/MC_RejectSim.cfg", "mc/MC_Reject.tla", workers=8, simulate=6000, depth=40, timeout=3000)["out"]], "c15-lines.txt")
     s = hv(ctx, "replay-reject", prop="C15", **{"in": out})
     ctx.traces += s.get("cases", 0)
     ctx.extra["rejected_calls_replayed"] = s.get("counters", {}).get("rejected_calls", 0)
